@@ -76,13 +76,13 @@ where
 {
     #[inline]
     unsafe fn release_event(&self) {
-        #[cfg(folo_verif)]
-        crate::verif::release(self.event.as_ptr().addr(), "ptr");
-
         // The storage is owned by whoever placed the event there and is reused without dropping
         // the event, so we clear its diagnostic state before we let go of it.
         #[cfg(debug_assertions)]
         Event::clear_awaiter_backtrace(self);
+
+        #[cfg(folo_verif)]
+        crate::verif::release(self.event.as_ptr().addr(), "ptr");
     }
 }
 
@@ -165,12 +165,12 @@ where
     T: Send + 'static,
 {
     unsafe fn release_event(&self) {
-        #[cfg(folo_verif)]
-        crate::verif::release(self.event.as_ptr().addr(), "boxed");
-
         // Releasing the memory does not drop the event, so we clear its diagnostic state first.
         #[cfg(debug_assertions)]
         Event::clear_awaiter_backtrace(self);
+
+        #[cfg(folo_verif)]
+        crate::verif::release(self.event.as_ptr().addr(), "boxed");
 
         // SAFETY: The pointer comes from `new_pair`, which allocated it with this exact layout.
         // The caller guarantees sole cleanup ownership, so nothing can access the event during
